@@ -51,9 +51,9 @@ theorem reopen_releases_all (tls : Bool) (ops : List SOp) :
   rw [h]; rfl
 
 /-- non-vacuity / regression (F13, F14): TLS server, one peer never handshakes, one connects twice from the same address -/
-example : ((Server.start true).run [.conn ⟨1, [], [], []⟩, .conn ⟨2, [], [], [.ok]⟩, .svc, .conn ⟨2, [], [], [.ok]⟩, .svc]).openSocks
+example : ((Server.start true).run [.conn ⟨1, [], [], [], false⟩, .conn ⟨2, [], [], [.ok], false⟩, .svc, .conn ⟨2, [], [], [.ok], false⟩, .svc]).openSocks
     = [0, 3, 1] := by decide
-example : (((Server.start true).run [.conn ⟨1, [], [], []⟩, .conn ⟨2, [], [], [.ok]⟩, .svc, .conn ⟨2, [], [], [.ok]⟩, .svc]).close).openSocks
+example : (((Server.start true).run [.conn ⟨1, [], [], [], false⟩, .conn ⟨2, [], [], [.ok], false⟩, .svc, .conn ⟨2, [], [], [.ok], false⟩, .svc]).close).openSocks
     = [] := by decide
 
 /-- C11.2 reopening and reconnecting a client never leaves an earlier socket open: after every history of
